@@ -24,11 +24,13 @@ def before_json(valid_only=False, invalid_bias=False):
             st.tuples(st.just("i"), st.integers(0, 4)).map(list)]
     x = st.tuples(st.just("x"), st.integers(0, 40)).map(list)
     g = st.tuples(st.just("g"), st.integers(0, 10)).map(list)  # a node that has left the tree (stale reference)
+    u = st.tuples(st.just("u"), st.integers(0, 1)).map(list)  # a node of an unrelated tree of the other node class
     if invalid_bias:
-        return st.one_of(x, g, st.one_of(*opts))
+        return st.one_of(x, g, u, st.one_of(*opts))
     if not valid_only:
         opts.append(x)
         opts.append(g)
+        opts.append(u)
     return st.one_of(*opts)
 
 
